@@ -214,7 +214,8 @@ def _dtype_module(ctx):
 
     absint.scalar_attr = scalar_attr
     try:
-        mod = Obj(D, dict(dtype="target_dtype", exclude_filter=["skip"]), "dtype")
+        # keys are named "<layer>_<field>": the natural filter entry matches in the middle / at the end of the key
+        mod = Obj(D, dict(dtype="target_dtype", exclude_filter=["_w"]), "dtype")
         inp = {"v": Obj(None, dict(shape=(), dtype="dtype_of_v"), "sds"), "skip_w": Obj(None, dict(shape=(), dtype="dtype_of_w"), "sds"), "u": Obj(None, dict(shape=(), dtype="dtype_of_u"), "sds")}
         mod, out_shapes, _ = it.call_method(mod, "init_shapes", inp)
         vals = {"v": Rat.atom("v"), "skip_w": Rat.atom("w"), "u": Rat.atom("u")}
@@ -228,7 +229,62 @@ def _dtype_module(ctx):
     ok_in = all(to_rat(comp[k]).equals(Rat.atom(w)) for k, w in want_comp.items()) and to_rat(comp["skip_w"]).equals(Rat.atom("w"))
     ok_shapes = out_shapes["v"].attrs["dtype"] == "target_dtype" and out_shapes["skip_w"].attrs["dtype"] == "dtype_of_w"
     ok_out = all(to_rat(back[k]).equals(Rat.atom(("cast", Rat.atom(want_comp[k]).fmt(), f"dtype_of_{k}"))) for k in ("v", "u"))
-    ctx.ob("R30.2", "DtypeConversion", ok_in and ok_shapes and ok_out, "values are cast to the module's dtype on the way in (excluded keys untouched, declared output dtypes accordingly) and each back to the dtype recorded for its own key on the way out", dict(compress={k: to_rat(v).fmt() for k, v in comp.items()}, decompress={k: to_rat(v).fmt() for k, v in back.items()}), "cast(target) / cast(own input dtype)")
+    ctx.ob("R30.2", "DtypeConversion", ok_in and ok_shapes and ok_out, "values are cast to the module's dtype on the way in (keys containing an exclude_filter entry anywhere in their name untouched, declared output dtypes accordingly) and each back to the dtype recorded for its own key on the way out", dict(compress={k: to_rat(v).fmt() for k, v in comp.items()}, decompress={k: to_rat(v).fmt() for k, v in back.items()}), "cast(target) / cast(own input dtype)")
+
+
+def _pipeline_sizes(ctx):
+    """Recorder.init_state: every time filter is sized for the number of steps that reach it — the total step count
+    for the first one, the latent size the previous time filter reported for every later one — and the storage is
+    sized by the last latent size."""
+    ix = ctx.index
+    R = ix.cls("fdtdx.interfaces.recorder.Recorder")
+    f = R.lookup_method("init_state")
+    ctx.unit(f.where())
+    CM = ix.cls("fdtdx.interfaces.modules.CompressionModule")
+    TF = ix.cls("fdtdx.interfaces.time_filter.TimeStepFilter")
+    it = _interp(ctx)
+    seen = []
+
+    def tf_init(name, out_latent):
+        def init_shapes(it_, a, k_):
+            args = list(a) + [k_.get("time_steps_max")]
+            seen.append((name, to_rat(args[1]).fmt() if args[1] is not None else None))
+            return (mods[name], out_latent, a[0], {})
+
+        return Builtin("init_shapes", init_shapes)
+
+    mods = {}
+    mods["first"] = Obj(TF, dict(name="first"), "first")
+    mods["first"].attrs["init_shapes"] = tf_init("first", Rat.atom("A1"))
+    mods["cast"] = Obj(CM, dict(name="cast"), "cast")
+    mods["cast"].attrs["init_shapes"] = Builtin("init_shapes", lambda it_, a, k_: (mods["cast"], a[0], {}))
+    mods["second"] = Obj(TF, dict(name="second"), "second")
+    mods["second"].attrs["init_shapes"] = tf_init("second", Rat.atom("A2"))
+    rec = Obj(R, dict(modules=[mods["first"], mods["cast"], mods["second"]]), "recorder")
+    made = {}
+
+    def irs(it_, a, k_):
+        made.update(k_)
+        return Obj(None, {}, "recording_state")
+
+    from ..harness import stub_repo_calls
+
+    stub_repo_calls(it, {"init_recording_state": irs})
+    it.call_hooks.insert(0, it.call_hooks.pop())  # ahead of the generic model installed by _interp
+    it.ext_overrides["jax.ShapeDtypeStruct"] = lambda it_, a, k_: Obj(None, dict(shape=k_.get("shape", a[0] if a else ()), dtype=k_.get("dtype", a[1] if len(a) > 1 else None)), "sds")
+    shapes = {"x": Obj(None, dict(shape=(3,), dtype="f32"), "sds")}
+    try:
+        out = it.call_method(rec, "init_state", shapes, Rat.atom("T"), "cpu")
+    except Raised as r:
+        raise AnalysisError(f"Recorder.init_state raises on a two-filter pipeline: {r}")
+    new_rec = out[0] if isinstance(out, tuple) else out
+    lat = new_rec.attrs.get("_latent_array_size") if isinstance(new_rec, Obj) else None
+    dshape = (made.get("data_shape_dtypes") or {}).get("x")
+    if dshape is None:
+        ctx.note(f"init_recording_state received {list(made)}: {made}"[:300])
+    lead = dshape.attrs["shape"][0] if isinstance(dshape, Obj) and dshape.attrs.get("shape") else None
+    ok = seen == [("first", "T"), ("second", "A1")] and lat is not None and to_rat(lat).equals(Rat.atom("A2")) and lead is not None and to_rat(lead).equals(Rat.atom("A2"))
+    ctx.ob("R30.3", "Recorder.init_state:chained-time-filters", ok, "the first time filter is sized for the total number of steps T, the second for the number of latents A1 the first one keeps (a compression module in between does not change it), and the storage has A2 rows — so the second filter's always-saved last slot is the last latent that actually arrives", dict(sized_for=seen, latent=to_rat(lat).fmt() if lat is not None else None, rows=to_rat(lead).fmt() if lead is not None else None), "first: T, second: A1, storage: A2")
 
 
 def _job(ctx, payload):
@@ -274,6 +330,7 @@ def run(ctx):
     if err:
         raise AnalysisError(err)
     _dtype_module(ctx)
+    _pipeline_sizes(ctx)
     ctx.require_count("C30", len(ctx.obligations), len(jobs))
     ctx.trusted_base += [
         "integer table code (arange / roll / where / argmax / .at[].set) interpreted on concrete index arrays; recorded values and prior buffer content are free symbols",
